@@ -141,5 +141,5 @@ def run(ctx, replay=None):
              'right': [A.uncps(x) for x in c['right']['v']] if c['right']['kind'] == 'array' else A.uncps(c['right']['v'])},
             nontrivial=lambda c: True)
     ctx.notes.update({'exhaustive_pairs': nexh, 'shipped_scripts': sum(1 for c in cases if c['kind'] == 'shipped')})
-    return F.finish(ctx, rule='all %d pairs of line lists of length <= %d over {a,b,c} (a third of them spelt with multi-character lines and the empty line) as arrays / LF text / CRLF text / mixed parts, random '
+    return F.finish(ctx, rule='all %d pairs of line lists of length <= %d over {a,b,c} (a third of them spelt with multi-character lines and the empty line) as arrays / LF text / CRLF text / mixed parts, all pairs of lists of length <= 2 over lines ending in a bare CR, random '
                     'pairs up to 40 lines derived by edits, all shipped include scripts' % (nexh, n), exhaustive=True)
